@@ -324,12 +324,12 @@ package cbreaker
 
 // Wrap / Fallback rebind a handler and nothing else: the breaker's state survives them.
 //@ func (*CircuitBreaker).Wrap
-//@   props C05 C20
+//@   props C05 C12 C18 C20
 //@   requires c != nil
 //@   modifies c.next
 //@   ensures rebound: c.next == next
 //@ func (*CircuitBreaker).Fallback
-//@   props C05 C20
+//@   props C05 C12 C18 C20
 //@   requires c != nil
 //@   modifies c.fallback
 //@   ensures rebound: c.fallback == f
